@@ -70,9 +70,13 @@ def main():
     try:
         rc, out = sh([GO, "build", "./pkg/..."], cwd=wt)
         meta["steps"]["build"] = rc
-        rc, out = sh([GO, "test", "-vet=off", "-count=1"] + pkgs, cwd=wt)
+        # SEED_TEST_RUN: restrict the package tests to those that pass on the unchanged tree
+        # (pkg/node has a test that always fails and one that hangs at the pinned commit)
+        sel = ["-run", os.environ["SEED_TEST_RUN"]] if os.environ.get("SEED_TEST_RUN") else []
+        meta["steps"]["package_tests_selection"] = os.environ.get("SEED_TEST_RUN", "all")
+        rc, out = sh([GO, "test", "-vet=off", "-count=1"] + sel + pkgs, cwd=wt)
         if rc != 0:  # timing-sensitive suites are flaky on a loaded machine: one retry
-            rc, out = sh([GO, "test", "-vet=off", "-count=1"] + pkgs, cwd=wt)
+            rc, out = sh([GO, "test", "-vet=off", "-count=1"] + sel + pkgs, cwd=wt)
         meta["steps"]["package_tests"] = dict(rc=rc, tail=out[-600:])
         if demo_pkg:
             rc, out = run_demo()
